@@ -24,9 +24,15 @@ CLAIMS = {
   "note": "Tier U trusts the pow2/bit_length lemma schema and the shift/mask idiom lowering (spurious counter-models are filtered by replay on the real functions); module-global shims for int/isinstance/range/len/operator.index; normalisation obligations are bounded to widths <= 8 (quick) / 12 (thorough).",
   "technique": "contract-based deductive verification: function contracts, VCs from symbolic execution of the real functions, z3 (Int with instantiated lemmas / bit-vectors)",
  },
+ "C12": {
+  "text": "Inductive refinement proof: the registers and memory of the real SyncFIFO / SyncFIFOBuffered (elaborated and compiled by the real code) are the representation, one clock edge with arbitrary (w_en, w_data, r_en) is the operation whose body is the generated run() code, and z3 proves from EVERY well-formed state that the representation invariant is preserved, that the ghost queue becomes dequeue_if(r_en&r_rdy, enqueue_if(w_en&w_rdy, queue)), that w_rdy/r_rdy/r_data/level outputs relate to the queue as stated (including the liveness clauses as state predicates / one-step unrolling), and that the reset state is well formed and empty. Holds for every strobe sequence of any length; depth/width enumerated.",
+  "design_ref": "DESIGN.md 3C, 4/C12",
+  "note": "Depths {0..4} quick / {0..6, 8} thorough, widths {0,1,2}; kernel composition model (edge = woken sync processes, commit, comb settling with a proved convergence certificate) is trusted; slot contracts verified in C08/C11.",
+  "technique": "contract-based deductive verification: representation invariant + abstract view over generated process code, VCs by symbolic execution, z3",
+ },
 }
 NOT_APPLICABLE = {
  "C14": "reflective generators, attribute proxies and a 120-line lock-step loop over heterogeneous objects (flatten, is_compliant, connect) are outside the subset a VC generator built here models soundly; the reachable flip algebra is too small to carry the property (DESIGN.md 4/C14)",
 }
-for _p in ["C03","C04","C06","C07","C08","C09","C11","C12","C13","C15","C16","C17","C18","C19","C20"]:
+for _p in ["C03","C04","C06","C07","C08","C09","C11","C13","C15","C16","C17","C18","C19","C20"]:
     NOT_APPLICABLE.setdefault(_p, "check not built yet in this session (work in progress; see DESIGN.md section 4 for the plan)")
